@@ -397,6 +397,34 @@ def check(chk):
         ok = any("self.part_msg[0] & 224 == 32" in k and v is True for k, v in g.items()) and g.get("self._lost_synch") is True
         chk.ob("DOM-29", "sync is regained only on a gen2 card address byte", ok, f.where(n.ast), detail="guards %s" % sorted(g.items()),
                construct=f.ident, text="resync guard")
+    # ... and on every such byte that can start a frame the parser handles: a resync test that also looks at the command byte has to accept
+    # every command the in-sync branch dispatches, otherwise frames of the forgotten kind are skipped and a stream of only those never resyncs
+    dispatched = set()
+    for x in walk_local(f.node):
+        if isinstance(x, ast.If) and isinstance(x.test, ast.Compare) and len(x.test.ops) == 1 and isinstance(x.test.ops[0], ast.Eq) and \
+                "self.part_msg[1]" in (src(x.test.left), src(x.test.comparators[0])):
+            dispatched |= {src(y) for y in ast.walk(x.test) if isinstance(y, ast.Attribute) and dotted(y.value) == "OppRs232Intf"}
+    for n in clears:
+        g = cfg.guards_at(n.id)
+        extras = []
+        for k, v in g.items():
+            if k == "self._lost_synch" or ("self.part_msg[0]" in k and "self.part_msg[1]" not in k):
+                continue        # the address test itself is judged above
+            try:
+                names = {src(y) for y in ast.walk(ast.parse(k, mode="eval")) if isinstance(y, (ast.Name, ast.Attribute, ast.Subscript)) and
+                         not isinstance(getattr(y, "ctx", None), ast.Store)}
+            except SyntaxError:
+                names = {k}
+            if names <= {"strlen"}:
+                continue
+            extras.append((k, v))
+        ok = True
+        for k, v in extras:
+            mentioned = {d for d in dispatched if d in k}
+            ok = ok and v is True and "self.part_msg[1]" in k and mentioned == dispatched and " and " not in k
+        chk.ob("DOM-29", "sync is regained on every gen2 frame start the parser dispatches (%s): nothing narrows the address test to some commands" %
+               ", ".join(sorted(d.split(".")[-1] for d in dispatched)), ok and len(dispatched) >= 2, f.where(n.ast), detail="extra conditions %s" % extras,
+               construct=f.ident, text="resync narrowed")
     sets = [n for n in cfg.nodes_where(lambda n: n.kind == "stmt" and isinstance(n.ast, ast.Assign) and src(n.ast.targets[0]) == "self._lost_synch"
                                        and src(n.ast.value) == "True")]
     chk.ob("DOM-29", "unknown bytes / unknown commands put the parser into lost-sync mode", len(sets) >= 2, f.where(), construct=f.ident,
@@ -648,6 +676,9 @@ def battery():
         M("FAST full report: bit numbering off by one byte", NN, "                num = (offset * 8) + i", "                num = ((offset + 1) * 8) + i", "BITS-2"),
         M("FAST full report: only seven bits per byte", NN, "            for i in range(8):\n\n                num = (offset * 8) + i", "            for i in range(7):\n\n                num = (offset * 8) + i", "BITS-2"),
         M("FAST full report: polarity inverted", NN, "                if byte & (2**i):\n                    hw_states[num] = 1\n                else:\n                    hw_states[num] = 0", "                if byte & (2**i):\n                    hw_states[num] = 0\n                else:\n                    hw_states[num] = 1", "BITS-2"),
+        M("resync only on direct-input frames", OS_, "                    if (self.part_msg[0] & 0xe0) == 0x20:\n                        self._lost_synch = False", "                    if (self.part_msg[0] & 0xe0) == 0x20 and strlen > 1 and self.part_msg[1] == ord(OppRs232Intf.READ_GEN2_INP_CMD):\n                        self._lost_synch = False", "DOM-29"),
+        M("twin: resync scan bounded by strlen > 1", OS_, "                while strlen > 0:\n                    # wait for next gen2 card message", "                while strlen >= 1:\n                    # wait for next gen2 card message", None),
+        M("twin: resync also checks the command byte, for every dispatched command", OS_, "                while strlen > 0:\n                    # wait for next gen2 card message\n                    if (self.part_msg[0] & 0xe0) == 0x20:\n                        self._lost_synch = False", "                while strlen > 1:\n                    # wait for next gen2 card message\n                    if (self.part_msg[0] & 0xe0) == 0x20 and (self.part_msg[1] == ord(OppRs232Intf.READ_GEN2_INP_CMD) or self.part_msg[1] == ord(OppRs232Intf.READ_MATRIX_INP)):\n                        self._lost_synch = False", None),
     ]
 
 
